@@ -326,7 +326,16 @@ func (p *planner) planByWithout(byWithout ...*logql_parser.ByOrWithout) error {
 }
 
 func (p *planner) planAgg(agg *logql_parser.AggOperator, withLabels bool) error {
-	err := p.planByWithout(agg.ByOrWithoutPrefix, agg.ByOrWithoutSuffix)
+	byWithout := []*logql_parser.ByOrWithout{agg.ByOrWithoutPrefix, agg.ByOrWithoutSuffix}
+	if agg.ByOrWithoutPrefix == nil && agg.ByOrWithoutSuffix == nil {
+		// no grouping clause: every series goes into one series without labels, as "by ()"
+		byWithout = []*logql_parser.ByOrWithout{{Fn: "by"}}
+		withLabels = true
+		if p.matrixFunctionsLabelsIDX == -1 {
+			p.matrixFunctionsLabelsIDX = 0
+		}
+	}
+	err := p.planByWithout(byWithout...)
 	if err != nil {
 		return err
 	}
